@@ -15,14 +15,17 @@ import kani_run as KR  # noqa
 CLAIMS = {
     'C01': ('Receiver side proved for every history of authentic packets (any loss/duplication/reordering): the ordered channel hands over exactly '
             'the submitted byte strings in id order, each once (invariants acc/auth of ReceiveChannelReliable + SliceConstructor, all operations, unbounded). '
-            'Sender bookkeeping and the resend loop body are under contract too (units U6/U9 when listed in the evidence).',
+            'Sender bookkeeping and the resend loop body are under contract too (units U6/U9), and RenetClient::{new, new_from_server, from_channels} are proved verbatim to build '
+            'each configured channel with its configured kind, budget and direction (U14).',
             'Not decided: the liveness sentence (bounded ticks), the glue in RenetClient::process_packet/get_packets_to_send (channel routing), '
             'and that the renet wire codec is the identity on (id, bytes) pairs (see C16).'),
     'C02': ('Unordered reliable receive: `done` is monotone, a message is stored only if its id is not done, receive_message removes exactly what it returns, '
-            'and returns Some whenever a complete message is buffered; the cursor loop is proved with invariant and decreases.',
+            'and returns Some whenever a complete message is buffered; the cursor loop is proved with invariant and decreases. A ReliableUnordered configuration entry yields an '
+            'unordered receive channel (RenetClient::from_channels, verbatim, U14).',
             'Not decided: liveness; RenetClient glue.'),
     'C03': ('Reassembly equals the submitted bytes for every length and every arrival order with duplicates (one quantified statement over all messages m: '
-            'agrees(m) is preserved, a result appears only when all slices arrived and then equals m); buffered bytes per id stay authentic.',
+            'agrees(m) is preserved, a result appears only when all slices arrived and then equals m); buffered bytes per id stay authentic. Sender: every unreliable slice packet '
+            'carries the id opened for its message, ids of one flush are fresh and never shared by two messages (U7).',
             'Not decided: channel-id routing in RenetClient::process_packet.'),
     'C04': ('Replay window: for all u64 sequences, a sequence in the accepted set is always reported as received and a fresh one less than 256 behind is accepted '
             '(Verus, ghost accepted set). Packet::decode (Kani, complete for datagrams 0..=48 bytes, all prefix bytes): window consulted before the AEAD, advanced only '
